@@ -34,3 +34,7 @@ Definition kind_go (k : kind) : string :=
   | KUnsafe => "reflect.UnsafePointer" | KInvalid => "reflect.Invalid" end.
 Definition all_kinds := [KInvalid; KBool; KInt; KInt8; KInt16; KInt32; KInt64; KUint; KUint8; KUint16; KUint32; KUint64; KUintptr; KFloat32; KFloat64;
   KComplex; KArray; KChan; KFunc; KInterface; KMap; KPtr; KSlice; KString; KStruct; KUnsafe].
+
+(* a switch table: the entry of the label, or that of the default clause *)
+Definition table_or_default (k : string) (l : list (string * string)) : option string :=
+  match assoc k l with Some v => Some v | None => assoc "default" l end.
